@@ -467,13 +467,7 @@ package raft
 //@   inline
 
 // STUBS until the codec contracts (C18) are in place: decoding a request only writes the request object
-//@ func (*appendReq).decode
-//@   trusted
-//@   modifies all(req)
 //@ func (*installSnapReq).decode
-//@   trusted
-//@   modifies all(req)
-//@ func (*req).decode
 //@   trusted
 //@   modifies all(req)
 
